@@ -1014,7 +1014,13 @@ def apply(E, fv, args, kwargs, fr, node):
     if isinstance(fv, SPECFN_T):
         ts = []
         for a, ty in zip(args, fv.arg_tys):
-            ts.append(E.to_sv(a, ty).t)
+            t = E.to_sv(a, ty).t
+            if getattr(fv, "name_args", False) and z3.is_array(t) and not z3.is_const(t):
+                # the definition quantifies with a pattern over this argument: patterns must not contain compound terms
+                nm = E.fresh("arg_" + fv.name, ty)
+                E.assume(nm.t == t)
+                t = nm.t
+            ts.append(t)
         if len(ts) != len(fv.arg_tys):
             raise Unsupported("arity of spec function " + fv.name)
         return E.unbox(SV(fv(*ts), fv.ret_ty)) if not isinstance(fv.ret_ty, TList) else SV(fv(*ts), fv.ret_ty)
@@ -1387,7 +1393,7 @@ def comprehension(E, e, fr, kind):
     itv = E.eval(g.iter, fr)
     d = E.iter_desc(itv, fr, e)
     owner = fr
-    k, spec, unroll = E.loop_spec(owner)
+    k, spec, unroll = E.loop_spec(owner, e)
     n = d.length
     if isinstance(n, z3.ExprRef):
         ns = z3.simplify(n)
